@@ -197,6 +197,69 @@ fn to_bare(p: &Projection, emb: &Emb) -> Value {
     }
 }
 
+/// Seeded mutants (binding demonstration, `--mutate`): copies of two lance functions with one realistic change each.
+/// parse_field_path without the doubled-backtick escape:
+fn mutant_parse_field_path(path: &str) -> Result<Vec<String>, ()> {
+    if path.is_empty() {
+        return Err(());
+    }
+    let mut result = Vec::new();
+    let mut current = String::new();
+    let mut in_quotes = false;
+    let mut chars = path.chars().peekable();
+    while let Some(ch) = chars.next() {
+        match ch {
+            '`' => {
+                if in_quotes {
+                    in_quotes = false; // MUTATION: no check for an escaped (doubled) backtick
+                    if let Some(&next_ch) = chars.peek() {
+                        if next_ch != '.' {
+                            return Err(());
+                        }
+                    }
+                } else if current.is_empty() {
+                    in_quotes = true;
+                } else {
+                    return Err(());
+                }
+            }
+            '.' if !in_quotes => {
+                if current.is_empty() {
+                    return Err(());
+                }
+                result.push(current);
+                current = String::new();
+            }
+            _ => current.push(ch),
+        }
+    }
+    if in_quotes {
+        return Err(());
+    }
+    if !current.is_empty() {
+        result.push(current);
+    } else if !result.is_empty() {
+        return Err(());
+    }
+    if result.is_empty() {
+        return Err(());
+    }
+    Ok(result)
+}
+/// Field::project_by_ids with `children.is_empty() || include_all_children` turned into `&&`:
+fn mutant_project_by_ids(f: &Field, ids: &[i32], include_all_children: bool) -> Option<Field> {
+    let children = f.children.iter().filter_map(|c| mutant_project_by_ids(c, ids, include_all_children)).collect::<Vec<_>>();
+    if ids.contains(&f.id) && (children.is_empty() && include_all_children) {
+        Some(f.clone())
+    } else if !children.is_empty() {
+        let mut g = f.clone();
+        g.children = children;
+        Some(g)
+    } else {
+        None
+    }
+}
+
 fn subsets(v: &[usize]) -> Vec<Vec<usize>> {
     (0..(1u32 << v.len())).map(|m| v.iter().enumerate().filter(|(i, _)| m >> i & 1 == 1).map(|(_, x)| *x).collect()).collect()
 }
@@ -284,8 +347,15 @@ fn run_tree(w: &mut TraceWriter, tid: usize, t: &Tree, emb_name: &str, mutate: &
     // ---- projection by ids --------------------------------------------------------------------------
     for ids in subsets(&all) {
         let real: Vec<i32> = ids.iter().map(|k| emb.to_real[k]).collect();
-        let r0 = dump(&schema.project_by_ids(&real, false), &emb);
-        let r1 = dump(&schema.project_by_ids(&real, true), &emb);
+        let by_ids = |all: bool| {
+            if mutate == "by-ids-and" {
+                Schema { fields: schema.fields.iter().filter_map(|f| mutant_project_by_ids(f, &real, all)).collect(), metadata: schema.metadata.clone() }
+            } else {
+                schema.project_by_ids(&real, all)
+            }
+        };
+        let r0 = dump(&by_ids(false), &emb);
+        let r1 = dump(&by_ids(true), &emb);
         // an arbitrary id set as a Projection
         let hs: HashSet<i32> = real.iter().cloned().collect();
         let p = Projection::empty(Arc::new(schema.clone())).union_predicate(|f| hs.contains(&f.id));
@@ -346,7 +416,7 @@ fn run_tree(w: &mut TraceWriter, tid: usize, t: &Tree, emb_name: &str, mutate: &
     }
 }
 
-fn parse_section(w: &mut TraceWriter, maxlen: usize) {
+fn parse_section(w: &mut TraceWriter, maxlen: usize, mutate: &str) {
     let alphabet = ['a', 'b', '.', '`'];
     let mut strings: Vec<String> = vec![String::new()];
     let mut frontier = vec![String::new()];
@@ -363,7 +433,7 @@ fn parse_section(w: &mut TraceWriter, maxlen: usize) {
         frontier = next;
     }
     for s in &strings {
-        let r = parse_field_path(s);
+        let r = if mutate == "parse-no-escape" { mutant_parse_field_path(s) } else { parse_field_path(s).map_err(|_| ()) };
         let (res, segs) = match r {
             Ok(v) => ("ok", v.iter().map(|x| chars(x)).collect::<Vec<_>>()),
             Err(_) => ("err", vec![]),
@@ -388,7 +458,7 @@ fn main() {
     let mut w = TraceWriter::create(&out);
     std::panic::set_hook(Box::new(|_| {})); // panics inside lance are recorded as data, not printed
     if args.get_or("section", "trees") == "parse" {
-        parse_section(&mut w, args.num("maxlen", 5) as usize);
+        parse_section(&mut w, args.num("maxlen", 5) as usize, &mutate);
     } else {
         let trees_file = args.get("trees").expect("--trees");
         let shard = args.num("shard", 0);
